@@ -214,6 +214,28 @@ func BuildAction(r *rec.Rec) (of.Action, error) {
 		if len(order) != 6 {
 			order = []byte{0, 1, 2, 3, 4, 5}
 		}
+		if rp%5 == 2 { // a history in which every bound is first set to something else: the last call per bound counts
+			dummy := uint16(0x1234)
+			for _, k := range order {
+				if rp>>k&1 == 0 {
+					continue
+				}
+				switch k {
+				case 0:
+					a.SetRangeIPv4Min(net.IPv4(9, 9, 9, 9))
+				case 1:
+					a.SetRangeIPv4Max(net.IPv4(9, 9, 9, 10))
+				case 2:
+					a.SetRangeIPv6Min(net.ParseIP("2001:db8::1"))
+				case 3:
+					a.SetRangeIPv6Max(net.ParseIP("2001:db8::2"))
+				case 4:
+					a.SetRangeProtoMin(&dummy)
+				case 5:
+					a.SetRangeProtoMax(&dummy)
+				}
+			}
+		}
 		for _, k := range order {
 			if rp>>k&1 == 0 {
 				continue
